@@ -102,7 +102,7 @@ impl Scenario for Chain {
         if tier == "thorough" {
             3_000_000
         } else {
-            40_000
+            250_000
         }
     }
 
